@@ -230,6 +230,45 @@ fn spawn_tcp_opts(ip: IpAddr, server: ServerFn, allowed: usize, partial_hold: bo
     Some(Loopback { port, stop, sent, received })
 }
 
+extern "C" {
+    fn listen(fd: i32, backlog: i32) -> i32;
+}
+
+/// A loopback TCP endpoint on which a connect neither succeeds nor is refused: a listener with the smallest accept
+/// queue, filled with parked connections until a probe connect times out (further SYNs are dropped by the kernel).
+struct BlackHole {
+    _listener: std::net::TcpListener,
+    _parked: Vec<std::net::TcpStream>,
+    address: SocketAddr,
+}
+
+impl BlackHole {
+    fn new(ip: IpAddr) -> Option<Self> {
+        use std::os::fd::AsRawFd;
+        let listener = std::net::TcpListener::bind(SocketAddr::new(ip, 0)).ok()?;
+        let address = listener.local_addr().ok()?;
+        if unsafe { listen(listener.as_raw_fd(), 0) } != 0 {
+            return None;
+        }
+        let mut parked = Vec::new();
+        let mut full = false;
+        for _ in 0 .. 64 {
+            match std::net::TcpStream::connect_timeout(&address, Duration::from_millis(300)) {
+                Ok(s) => parked.push(s),
+                Err(e) if matches!(e.kind(), std::io::ErrorKind::TimedOut | std::io::ErrorKind::WouldBlock) => {
+                    full = true;
+                    break;
+                }
+                Err(_) => return None,
+            }
+        }
+        if !full || std::net::TcpStream::connect_timeout(&address, Duration::from_millis(300)).is_ok() {
+            return None;
+        }
+        Some(BlackHole { _listener: listener, _parked: parked, address })
+    }
+}
+
 /// Run `f` on its own thread; None if it has not returned within `limit`.
 fn with_watchdog<T: Send + 'static>(limit: Duration, f: impl FnOnce() -> T + Send + 'static) -> Option<(T, Duration)> {
     let (tx, rx) = mpsc::channel();
@@ -258,6 +297,9 @@ enum What {
     Silence { entry: usize, k: usize, v6: bool, ms: u64, retries: usize, variant: u8 },
     /// special endpoints: 0 = TCP refused, 1 = UDP port closed
     Special { entry: usize, kind: u8, v6: bool, ms: u64, retries: usize },
+    /// TCP: a peer that neither accepts nor refuses (listener with a full accept queue); settings 0 = 300 ms given
+    /// explicitly, 1 = no settings at all (documented default: 4 s), 2 = Some(TimeoutSettings::default())
+    ConnectHole { entry: usize, v6: bool, settings: u8 },
     /// TCP: half of the reply, then the connection stays open and silent
     PartialHold { entry: usize, v6: bool, ms: u64, retries: usize },
     /// (the master answers `pages` pages without a terminator and is silent from then on)
@@ -349,6 +391,16 @@ fn build(tier: Tier) -> Vec<Case> {
             v.push(Case { label: format!("{} echo {}: payload sizes x receive sizes", if tcp { "tcp" } else { "udp" }, if v6 { "::1" } else { "127.0.0.1" }), what: What::Echo { tcp, v6 } });
         }
     }
+    for (ei, e) in entries().iter().enumerate().filter(|(_, e)| e.tcp) {
+        for v6 in [false, true] {
+            for settings in 0 .. 3u8 {
+                v.push(Case {
+                    label: format!("{} {} peer that neither accepts nor refuses the connection, {}", e.name, if v6 { "::1" } else { "127.0.0.1" }, ["connect timeout 300 ms", "no settings given (default 4 s)", "Some(TimeoutSettings::default()) (4 s)"][settings as usize]),
+                    what: What::ConnectHole { entry: ei, v6, settings },
+                });
+            }
+        }
+    }
     v
 }
 
@@ -403,7 +455,7 @@ impl Prop for C12 {
         "full matrix on real loopback sockets: entry point {valve (challenge + 3 requests, split lists), gamespy1 query / query_vars (2 parts), gamespy2, gamespy3 (handshake + \
          data), unreal2 (trailing receives), quake3, bedrock, java (TCP), legacy 1.6 (TCP)} x silence point {before the first \
          reply, after each reply, never} + {TCP connection refused / UDP port closed} x {127.0.0.1, ::1} x read/write/connect \
-         timeout {150 ms (quick); 150, 400 ms (thorough)} x retries {0, 1 (quick); 0, 1, 2}; plus the same settings deserialised from their JSON form; plus, for TCP, half a reply followed by silence on an open connection; eco over HTTP (accept-then-hold, \
+         timeout {150 ms (quick); 150, 400 ms (thorough)} x retries {0, 1 (quick); 0, 1, 2}; plus the same settings deserialised from their JSON form; plus, for TCP, half a reply followed by silence on an open connection, and a peer that neither accepts nor refuses the connection (full accept queue) with a 300 ms connect timeout, with no settings at all and with the default settings (documented 4 s); eco over HTTP (accept-then-hold, \
          refused), a TCP peer that never reads against a 32 MiB request, a GameSpy 2 server streaming 30 replies to another request id, and the master server (silent from the start, after one page, after two pages). The loopback servers are driven by the same reference models. Oracle: a server silent before the exchange is complete means a PacketReceive error (reference; inside Unreal 2's lists the twin's outcome); the number of receive timeouts of the deterministic twin run is at most the reference count N; the \
          outcome class equals the outcome of the deterministic twin run under the virtual network with the same silence point \
          ; the call returns within N x timeout + 1.5 s, where N is read off the FAULT-FREE exchange (its natural timeouts + one that may end a greedy list + retries + 1 for the unit that meets the silence), not off the implementation's behaviour under the fault; over UDP the server must receive no more than (requests before the silence + retries x requests an attempt sends before its first receive) datagrams (hard watchdog at \
@@ -580,6 +632,38 @@ impl Prop for C12 {
                 match verdict {
                     None => ctx.sample(serde_json::json!({"case": case.label})),
                     Some((k2, d)) => ctx.violation(format!("real-socket:{k2}:{}", if e.tcp { "tcp" } else { "udp" }), &[], format!("{}: {d}", case.label), d.clone(), if kind == 0 { "Err(SocketConnect)" } else { "a receive/send-class error" }, vec![]),
+                }
+            }
+            What::ConnectHole { entry, v6, settings } => {
+                let e = entries()[entry].clone();
+                let Some(hole) = BlackHole::new(loop_ip(v6)) else { ctx.violation("MACHINERY:loopback-unavailable", &[], "the accept queue of a loopback listener could not be filled".to_string(), "", "", vec![]); return; };
+                let (ip, port) = (hole.address.ip(), hole.address.port());
+                let call = e.call.clone();
+                // the reference bound is the documented default (4 s), never a value read from the code under test
+                let (t, bound) = match settings {
+                    0 => (ts(300, 0), Duration::from_millis(300) + SLACK),
+                    1 => (None, Duration::from_secs(4) + SLACK),
+                    _ => (Some(TimeoutSettings::default()), Duration::from_secs(4) + SLACK),
+                };
+                let r = with_watchdog(bound * 2 + Duration::from_secs(3), move || call(ip, port, t));
+                drop(hole);
+                ctx.counters.transitions += 1;
+                let verdict = match r {
+                    None => Some(("connect-never-times-out".to_string(), format!("no return within {:?}", bound * 2 + Duration::from_secs(3)))),
+                    Some((res, elapsed)) => {
+                        if !matches!(&res, Err(err) if err.kind == GDErrorKind::SocketConnect) {
+                            Some((format!("error-class:{}", if v6 { "ipv6" } else { "ipv4" }), format!("outcome {}", class_of(&res))))
+                        } else if elapsed > bound {
+                            Some(("too-slow".to_string(), format!("took {elapsed:?}, bound {bound:?}")))
+                        } else {
+                            None
+                        }
+                    }
+                };
+                ctx.distinct_key(&(case.label.clone(), verdict.clone()));
+                match verdict {
+                    None => ctx.sample(serde_json::json!({"case": case.label})),
+                    Some((k2, d)) => ctx.violation(format!("real-socket:{k2}:tcp-connect"), &[], format!("{}: {d}", case.label), d.clone(), "Err(SocketConnect) within the connect timeout", vec![]),
                 }
             }
             What::PartialHold { entry, v6, ms, retries } => {
